@@ -109,3 +109,107 @@ Example f32_above_tie : f32_of_int (2 ^ 60 + 2 ^ 36 + 1) = 1568669697 /\ f32_of_
   /\ f32_of_int (- (2 ^ 60 + 2 ^ 36 + 1)) = 2 ^ 31 + 1568669697 /\ f32_of_int 16777217 = 1266679808 /\ f32_of_int 1 = 1065353216
   /\ f64_of_int 1 = 4607182418800017408 /\ f64_of_int (2 ^ 64 - 1) = 4895412794951729152 /\ f64_of_int (- 2 ^ 63) = 14114281232179134464.
 Proof. vm_compute. repeat split; reflexivity. Qed.
+
+(* ---- float width to float width ---- *)
+Lemma round_scaled_quantum p qmin m x : snd (round_scaled p qmin m x) = Z.max (Z.log2 m + x - (p - 1)) qmin.
+Proof. unfold round_scaled. destruct (_ <=? x); reflexivity. Qed.
+
+(* representable at the quantum: stored exactly (every f32 in f64, and every f64 whose low bits are zero in f32) *)
+Lemma round_scaled_exact p qmin m x : Z.max (Z.log2 m + x - (p - 1)) qmin <= x ->
+  round_scaled p qmin m x = (m * 2 ^ (x - Z.max (Z.log2 m + x - (p - 1)) qmin), Z.max (Z.log2 m + x - (p - 1)) qmin).
+Proof. intros H. unfold round_scaled. destruct (Z.leb_spec (Z.max (Z.log2 m + x - (p - 1)) qmin) x) as [_|C]; [reflexivity|lia]. Qed.
+
+(* otherwise: the nearest multiple of the quantum, the even one on a tie; with sh = qe - x the claim is in units of 2^x *)
+Lemma round_scaled_rounded p qmin m x q qe : 1 < p -> 0 < m -> round_scaled p qmin m x = (q, qe) -> x < Z.max (Z.log2 m + x - (p - 1)) qmin ->
+  qe = Z.max (Z.log2 m + x - (p - 1)) qmin /\ 0 <= q <= 2 ^ p /\
+  2 * Z.abs (q * 2 ^ (qe - x) - m) <= 2 ^ (qe - x) /\ (2 * Z.abs (q * 2 ^ (qe - x) - m) = 2 ^ (qe - x) -> Z.even q = true).
+Proof.
+  intros Hp Hm. unfold round_scaled. set (QE := Z.max (Z.log2 m + x - (p - 1)) qmin).
+  destruct (Z.leb_spec QE x) as [C|_]; [intros _ Hc; lia|]. intros Hres Hx.
+  pose proof (Z.log2_spec m Hm) as [Hlo Hhi]. set (L := Z.log2 m) in *. set (sh := QE - x) in *.
+  assert (Hsh : 1 <= sh) by (subst sh; lia).
+  assert (ES : 2 ^ sh = 2 * 2 ^ (sh - 1)) by (replace sh with (1 + (sh - 1)) at 1 by lia; rewrite pow_split by lia; reflexivity).
+  pose proof (pow_pos (sh - 1) ltac:(lia)) as HH.
+  pose proof (Z.div_mod m (2 ^ sh) ltac:(lia)) as Hdm. pose proof (Z.mod_pos_bound m (2 ^ sh) ltac:(lia)) as Hr.
+  assert (Hq0 : 0 <= m / 2 ^ sh < 2 ^ p).
+  { split; [apply Z.div_pos; lia|]. apply Z.div_lt_upper_bound; [lia|]. rewrite <- pow_split by lia.
+    eapply Z.lt_le_trans; [exact Hhi|]. apply Z.pow_le_mono_r; [lia|]. subst sh QE. lia. }
+  pose proof (pow_pos p ltac:(lia)) as HP.
+  set (S := 2 ^ sh) in *. set (H := 2 ^ (sh - 1)) in *. set (q0 := m / S) in *. set (r := m mod S) in *.
+  set (up := (H <? r) || ((r =? H) && Z.odd q0)) in *.
+  assert (Hup : up = true -> H < r \/ (r = H /\ Z.odd q0 = true)).
+  { subst up. intros Hu. apply orb_true_iff in Hu as [Hu|Hu]; [left; apply Z.ltb_lt; exact Hu|].
+    apply andb_true_iff in Hu as [Hu1 Hu2]. right. split; [apply Z.eqb_eq; exact Hu1|exact Hu2]. }
+  assert (Hdn : up = false -> r < H \/ (r = H /\ Z.odd q0 = false)).
+  { subst up. intros Hu. apply orb_false_iff in Hu as [Hu1 Hu2]. apply Z.ltb_ge in Hu1. apply andb_false_iff in Hu2 as [Hu2|Hu2].
+    - apply Z.eqb_neq in Hu2. left; lia.
+    - destruct (Z.eq_dec r H) as [E|E]; [right; split; assumption|left; lia]. }
+  destruct up eqn:Eup; injection Hres as <- <-; fold sh; fold S.
+  - specialize (Hup eq_refl). repeat split; try nia.
+    intros Ht. assert (r = H) by nia. destruct Hup as [Hup|[_ Ho]]; [lia|]. rewrite Z.even_add, <- Z.negb_odd, Ho. reflexivity.
+  - specialize (Hdn eq_refl). repeat split; try nia.
+    intros Ht. assert (r = H) by nia. destruct Hdn as [Hdn|[_ Ho]]; [lia|]. rewrite <- Z.negb_odd, Ho. reflexivity.
+Qed.
+
+(* widening is exact: every finite f32 (significand below 2^24, quantum at least 2^-149) sits on the f64 grid *)
+Lemma widen_exact m x : 0 < m < 2 ^ 24 -> -149 <= x -> exists qe, qe <= x /\ round_scaled 53 (-1074) m x = (m * 2 ^ (x - qe), qe).
+Proof.
+  intros Hm Hx. assert (Hl : Z.log2 m < 24) by (apply Z.log2_lt_pow2; lia).
+  exists (Z.max (Z.log2 m + x - (53 - 1)) (-1074)). split; [lia|]. apply round_scaled_exact. lia.
+Qed.
+
+Lemma encode_mag_range p bias width q qe : 1 < p -> p < width -> 0 <= q -> 0 <= encode_mag p bias width q qe <= (2 ^ (width - p) - 1) * 2 ^ (p - 1).
+Proof.
+  intros Hp Hw Hq. unfold encode_mag. pose proof (pow_pos (p - 1) ltac:(lia)) as HP. pose proof (pow_pos (width - p) ltac:(lia)) as HW.
+  split; [|apply Z.le_min_l]. apply Z.min_glb; [nia|]. pose proof (Z.le_max_l 0 (qe + (p - 1) + bias - 1)). nia.
+Qed.
+
+Lemma classify_nonneg p bias width bits sign m x : 1 < p -> classify p bias width bits = (sign, FFinite m x) -> 0 <= m.
+Proof.
+  intros Hp. unfold classify. intros E. injection E as _ E. pose proof (pow_pos (p - 1) ltac:(lia)) as HP.
+  pose proof (Z.mod_pos_bound (bits mod 2 ^ (width - 1)) (2 ^ (p - 1)) HP) as Hf.
+  destruct (_ =? 2 ^ (width - p) - 1); [destruct (_ =? 0); discriminate|].
+  destruct (_ =? 0); [destruct (_ =? 0); [discriminate|injection E as <- _; lia]|injection E as <- _; lia].
+Qed.
+
+Lemma convert_float_range p1 bias1 width1 p2 bias2 width2 bits : 1 < p1 -> 2 < p2 -> p2 < width2 -> 0 <= bits ->
+  0 <= convert_float p1 bias1 width1 p2 bias2 width2 bits < 2 ^ width2.
+Proof.
+  intros Hp1 Hp2 Hw Hb. unfold convert_float. destruct (classify p1 bias1 width1 bits) as [sign c] eqn:EC.
+  assert (EW : 2 ^ width2 = 2 * 2 ^ (width2 - 1)) by (replace width2 with (1 + (width2 - 1)) at 1 by lia; rewrite pow_split by lia; reflexivity).
+  assert (EW1 : 2 ^ (width2 - 1) = 2 ^ (width2 - p2) * 2 ^ (p2 - 1)) by (rewrite <- pow_split by lia; f_equal; lia).
+  assert (EP : 2 ^ (p2 - 1) = 2 * 2 ^ (p2 - 2)) by (replace (p2 - 1) with (1 + (p2 - 2)) at 1 by lia; rewrite pow_split by lia; reflexivity).
+  pose proof (pow_pos (p2 - 2) ltac:(lia)) as HP. pose proof (pow_pos (width2 - p2) ltac:(lia)) as HW.
+  set (inf := (2 ^ (width2 - p2) - 1) * 2 ^ (p2 - 1)) in *.
+  assert (Hbody : 0 <= match c with
+      | FZero => 0 | FInf => inf
+      | FNaN frac => inf + 2 ^ (p2 - 2) + (if p2 <=? p1 then frac / 2 ^ (p1 - p2) else frac * 2 ^ (p2 - p1)) mod 2 ^ (p2 - 2)
+      | FFinite m x => let '(q, qe) := round_scaled p2 (1 - bias2 - (p2 - 1)) m x in encode_mag p2 bias2 width2 q qe
+      end < 2 ^ (width2 - 1)).
+  { destruct c as [|m x| |frac].
+    - lia.
+    - destruct (round_scaled p2 (1 - bias2 - (p2 - 1)) m x) as [q qe] eqn:E.
+      assert (Hn : 0 <= q).
+      { assert (Hm : 0 <= m) by (apply (classify_nonneg p1 bias1 width1 bits sign m x Hp1 EC)).
+        revert E. unfold round_scaled. destruct (_ <=? x); intros E; injection E as <- _.
+        - apply Z.mul_nonneg_nonneg; [exact Hm|apply Z.pow_nonneg; lia].
+        - match goal with |- 0 <= (if _ then ?d + 1 else ?d) => assert (0 <= d) by (apply Z_div_nonneg_nonneg; [exact Hm|apply Z.pow_nonneg; lia]) end.
+          match goal with |- 0 <= (if ?c then _ else _) => destruct c; lia end. }
+      pose proof (encode_mag_range p2 bias2 width2 q qe ltac:(lia) Hw Hn) as H. fold inf in H. nia.
+    - subst inf. nia.
+    - pose proof (Z.mod_pos_bound (if p2 <=? p1 then frac / 2 ^ (p1 - p2) else frac * 2 ^ (p2 - p1)) (2 ^ (p2 - 2)) HP). subst inf. nia. }
+  destruct sign; lia.
+Qed.
+
+Lemma f32_of_f64_range x : 0 <= x -> 0 <= f32_of_f64 x < 2 ^ 32.
+Proof. intros H. apply convert_float_range; lia. Qed.
+
+Lemma f64_of_f32_range x : 0 <= x -> 0 <= f64_of_f32 x < 2 ^ 64.
+Proof. intros H. apply convert_float_range; lia. Qed.
+
+(* 1.0, the smallest subnormal, infinities, a quiet NaN, ties to even in the normal and the subnormal range, overflow to infinity *)
+Example convert_examples :
+  f32_of_f64 4607182418800017408 = 1065353216 /\ f32_of_f64 3936146074321813504 = 1 /\ f32_of_f64 4039728865751334912 = 8388608
+  /\ f32_of_f64 5183643170835005440 = 2139095040 /\ f32_of_f64 5183643170566569984 = 2139095039 /\ f32_of_f64 9221120237041090560 = 2143289344
+  /\ f64_of_f32 1 = 3936146074321813504 /\ f64_of_f32 8388607 = 4039728864677593088 /\ f64_of_f32 4286578688 = 18442240474082181120.
+Proof. vm_compute. repeat split; reflexivity. Qed.
